@@ -96,7 +96,7 @@ def main():
         ],
         "checks": checks,
         "not_applicable": na,
-        "notes": "Technique family: static analysis only. Genuine defects found on the pinned tree were repaired by 11 `fix:` commits in /repo (see known_findings.json `fixed` records and DESIGN.md section 7). Self-validation corpus: selftest/mutants.json (python3 -m sa.selftest).",
+        "notes": "Technique family: static analysis only. Genuine defects found on the pinned tree were repaired by 17 `fix:` commits in /repo; six further defects (eight entries) are recorded as known findings (known_findings.json; DESIGN.md sections 7 and 7b). Self-validation corpus: selftest/mutants.json (python3 -m sa.selftest).",
     }
     with open(os.path.join(VERIF, "MANIFEST.json"), "w") as f:
         json.dump(m, f, indent=1)
